@@ -94,6 +94,9 @@ func signature(c *Case, f fail) string {
 		if c.Wait {
 			r += "+wait"
 		}
+		if c.Peek {
+			r += "+peek0"
+		}
 		parts = append(parts, r)
 	}
 	if len(c.C2S.Cuts)+len(c.S2C.Cuts) > 0 {
